@@ -194,7 +194,7 @@ def check_invocations(obs, ro, ref, prog, lazy_guard=None):
                                  kwargs=_short(rec['kwargs'], 300)))
             else:
                 decl = {p for p, _ in prog['nodes'][node].get('params', [])}
-                got = set(rec['kwargs'])
+                got = set(rt.cmp_kwargs(prog['nodes'][node], rec['kwargs']))     # names as the oracle compares them
                 if bad:
                     kind = 'bad_arg_' + bad[1]
                 elif any(v is None for v in rec['kwargs'].values()) and not any(
